@@ -34,6 +34,9 @@ func HarnessOps(k int, n int) {
 	db, toks := Table(k, admin)
 	svc := service.NewTokenService(hstore.Repos(db), admin)
 	probe := vh.NondetStr("probe")
+	if vh.Choose(2) == 1 {
+		probe = "%" // the SQL wildcard: a lookup that is a pattern match instead of an equality would accept it
+	}
 	in := false
 	for i := range toks {
 		in = vh.Or(in, vh.StrEq(probe, toks[i]))
